@@ -106,6 +106,9 @@ func (vm *VM) errIndexOutOfRange() runtimeError {
 
 // newPanic returns a new *PanicError with the given error message.
 func (vm *VM) newPanic(msg any) *PanicError {
+	if vm.fn == nil {
+		return &PanicError{message: msg}
+	}
 	return &PanicError{
 		message:  msg,
 		path:     vm.fn.InstructionInfo[vm.pc].Path,
@@ -120,6 +123,18 @@ func (vm *VM) convertPanic(msg any) error {
 		return err
 	case outError:
 		return vm.newPanic(err)
+	}
+	if vm.fn == nil {
+		// A deferred native function, called while panicking, has panicked.
+		switch msg := msg.(type) {
+		case *fatalError:
+			return msg
+		case runtimeError:
+			return vm.newPanic(msg)
+		case runtime.Error:
+			return &fatalError{msg: msg}
+		}
+		return vm.newPanic(msg)
 	}
 	switch op := vm.fn.Body[vm.pc-1].Op; op {
 	case OpAddr, OpIndex, -OpIndex, OpIndexRef, -OpIndexRef, OpSetSlice, -OpSetSlice:
@@ -147,7 +162,8 @@ func (vm *VM) convertPanic(msg any) error {
 			break
 		}
 		fallthrough
-	case OpCallNative:
+	case OpCallNative, OpReturn:
+		// With OpReturn, a deferred native function has panicked.
 		switch msg := msg.(type) {
 		case runtimeError:
 			break
